@@ -164,11 +164,11 @@ type kernel struct {
 	curVal    map[int]ValSpec // src -> value of the reporter's current call
 	skipNow   bool
 
-	rootCtx   context.Context
-	cancelCfg context.CancelFunc
-	procCtx   map[string]context.Context
+	rootCtx    context.Context
+	cancelCfg  context.CancelFunc
+	procCtx    map[string]context.Context
 	procCancel map[string]context.CancelFunc
-	wg        sync.WaitGroup
+	wg         sync.WaitGroup
 
 	steps, skipped int
 	oracleAt       *arrival
